@@ -331,6 +331,13 @@ def run(ctx):
             return
         amps = [rng.choice([0.5, 1.0, 2.0, 3.0]) for _ in cycles]
         phases = [rng.uniform(0, 2 * math.pi) for _ in cycles]
+        if M > N and N % 2 == 0 and rng.random() < 0.5:
+            # refinement: the component AT the old Nyquist frequency, cos(pi*j) (phase 0: the sine part is invisible in the samples),
+            # lies below the NEW Nyquist frequency and must be reproduced too (trigonometric interpolation through the samples)
+            cycles = list(cycles) + [N // 2]
+            amps.append(rng.choice([0.5, 1.0, 2.0]))
+            phases.append(0.0)
+            ctx.hist('band-limited: with the old-Nyquist cosine component')
 
         def sig(tfrac):     # tfrac: time / (N*dt)
             return sum(A * np.cos(2 * math.pi * c * tfrac + p) for A, c, p in zip(amps, cycles, phases))
